@@ -52,7 +52,7 @@ INJ = {
          'invariants': ['C02_INV_CC_PTR(self, other, ip, op)', 'C02_INV_CC_K(self, ip)', 'C02_INV_CC_J(self, ip)'],
          'decreases': 'C02_DEC_CC(other, ip)'}],
     'EQ': [
-        {'file': F, 'func': 'vector_eq', 'ghost': 'g_eq_it = it;', 'at': 'before', 'anchor': 'if (ELEM_value(it) != ELEM_value(bit))'},
+        {'file': F, 'func': 'vector_eq', 'ghost': 'g_eq_it = it;', 'at': 'before', 'anchor': 'if (!C02_ELEM_EQ(it, bit))'},
         {'file': F, 'func': 'vector_eq', 'loop': 0, 'expect': 'for (',
          'assigns': 'it, bit, g_eq_it',
          'invariants': ['C02_INV_EQ(self, oth, it, bit)'],
@@ -83,6 +83,14 @@ COMMON_ASSUME = [
 COMMON_TRUSTED = ['spec/c02_vec.h allocator stub = std::allocator<T>::allocate/deallocate ([allocator.members]): fresh exact-size zeroed block / size recorded']
 
 UNITS = {}
+# function groups of the generated file a unit needs (vector_extract.py emits them under #ifdef C02_G_<GROUP>)
+GROUPS = {'push_back': ['BACK'], 'emplace_back': ['BACK'], 'pop_back': ['BACK'], 'clear': ['BACK'], 'resize': ['BACK'],
+          'access': ['ACCESS'], 'at_const': ['ACCESS'],
+          'erase_it': ['MID'], 'erase_range': ['MID'], 'insert_value': ['MID'], 'insert_alias': ['MID'], 'emplace': ['MID'],
+          'insert_range': ['MID'], 'insert_range2': ['MID'],
+          'op_eq': ['CMP'], 'op_lt': ['CMP'],
+          'ctor_copy': ['COPY'], 'assign_copy': ['COPY'], 'move_ops': ['COPY'],
+          'ctor_n': ['FILL', 'BACK'], 'ctor_range': ['FILL', 'BACK'], 'ctor_iter': ['FILL', 'BACK']}
 
 
 def unit(name, functions, loops, clauses, body, kf=(), extra_inject=(), extra=None, assumptions=(), trusted=(), need_j=False):
@@ -91,14 +99,16 @@ def unit(name, functions, loops, clauses, body, kf=(), extra_inject=(), extra=No
         'functions': functions,
         'extract': 'units/C02/vector_extract.py',
         'inject': [e for l in loops for e in INJ[l]] + list(extra_inject),
-        'loop_contracts_in_unit': 1,
         'clauses': clauses,
         'witness': {'unwind': 7},
         'trusted': COMMON_TRUSTED + list(trusted),
         'assumptions': COMMON_ASSUME + list(assumptions),
     }
+    if name == 'op_lt':
+        meta['loop_contracts_in_unit'] = 1        # the loop contract of the std::lexicographical_compare stub (spec/c02_std_algo.h)
+    meta['defines'] = ['C02_G_' + x for x in GROUPS.get(name, [])]
     if not need_j:
-        meta['defines'] = ['C02_NO_J']      # one tracked index is enough: invariants about g_j compiled out
+        meta['defines'] += ['C02_NO_J']      # one tracked index is enough: invariants about g_j compiled out
     if kf:
         meta['kf'] = list(kf)
     if extra:
